@@ -143,18 +143,63 @@ pub fn panic_text(p: Box<dyn std::any::Any + Send>) -> String {
     s.replace([' ', '\n'], "_")
 }
 
-/// Run an async operation on its own current-thread runtime, catching panics, and drain
+thread_local! {
+    /// `Some(n)`: operations started from this thread run on a multi-thread runtime with n workers.
+    static RT_WORKERS: std::cell::Cell<Option<usize>> = const { std::cell::Cell::new(None) };
+    /// Listings (path, names in the order handed to the caller) of the last finished operation.
+    static LAST_LISTINGS: std::cell::RefCell<Vec<(String, Vec<String>)>> = const { std::cell::RefCell::new(Vec::new()) };
+}
+
+/// Run `f` with every `block_on_catch` on this thread (so every `real_*` call) using a
+/// multi-thread tokio runtime with `workers` worker threads (`None` = the default
+/// current-thread runtime).  The operation's own future is still polled by `block_on` on the
+/// calling thread (conserve's futures are `!Send`); tasks it spawns (the block-directory
+/// listing JoinSet, validate's JoinSet, the gc lock's Drop) run on the worker threads.
+pub fn with_runtime_workers<R>(workers: Option<usize>, f: impl FnOnce() -> R) -> R {
+    let prev = RT_WORKERS.with(|c| c.replace(workers));
+    let r = std::panic::catch_unwind(AssertUnwindSafe(f));
+    RT_WORKERS.with(|c| c.set(prev));
+    match r {
+        Ok(v) => v,
+        Err(p) => std::panic::resume_unwind(p),
+    }
+}
+
+fn build_runtime() -> tokio::runtime::Runtime {
+    match RT_WORKERS.with(|c| c.get()) {
+        None => tokio::runtime::Builder::new_current_thread().enable_all().build().expect("runtime"),
+        Some(n) => tokio::runtime::Builder::new_multi_thread().worker_threads(n.max(1)).enable_all().build().expect("runtime"),
+    }
+}
+
+/// Every listing the last `real_*` operation on this thread received: (path, names in the
+/// order the (possibly shuffling) interceptor handed them to the program).
+pub fn take_last_listings() -> Vec<(String, Vec<String>)> {
+    LAST_LISTINGS.with(|l| std::mem::take(&mut *l.borrow_mut()))
+}
+
+/// Run an async operation on its own runtime (current-thread unless `with_runtime_workers`
+/// says otherwise), catching panics, and drain
 /// tasks it spawned (the gc lock's Drop spawns its cleanup).
 pub fn block_on_catch<T, F>(make: impl FnOnce() -> F) -> std::result::Result<T, String>
 where
     F: std::future::Future<Output = T>,
 {
-    let rt = tokio::runtime::Builder::new_current_thread().enable_all().build().expect("runtime");
+    let rt = build_runtime();
+    let multi = RT_WORKERS.with(|c| c.get()).is_some();
     let r = std::panic::catch_unwind(AssertUnwindSafe(|| {
         rt.block_on(async {
             let out = make().await;
             for _ in 0..3 {
                 tokio::task::yield_now().await;
+            }
+            if multi {
+                // detached tasks (the gc lock's Drop) run on worker threads at their own pace: wait
+                // until none is alive, so that their operations are in the log and on disk
+                let t0 = std::time::Instant::now();
+                while tokio::runtime::Handle::current().metrics().num_alive_tasks() > 0 && t0.elapsed() < std::time::Duration::from_secs(2) {
+                    tokio::time::sleep(std::time::Duration::from_millis(1)).await;
+                }
             }
             tokio::time::sleep(std::time::Duration::from_millis(2)).await;
             out
@@ -178,6 +223,8 @@ fn finish(ic: &Arc<Icept>, monitor: &Arc<TestMonitor>, changes: &Arc<Mutex<Vec<S
         events.push(format!("event error {}", err_text(&e)));
     }
     events.extend(changes.lock().unwrap().drain(..));
+    let listings: Vec<(String, Vec<String>)> = ic.log().iter().filter_map(|r| if let Outcome::Listing(es) = &r.outcome { Some((r.path.clone(), es.iter().map(|e| e.name.clone()).collect())) } else { None }).collect();
+    LAST_LISTINGS.with(|l| *l.borrow_mut() = listings);
     RunResult { trace: ic.log().iter().map(op_text).collect(), events, result, lines, steps: ic.steps(), dead: ic.dead(), injected: ic.injected() }
 }
 
